@@ -58,6 +58,11 @@ func judge(sc *scen.Scenario, res *scen.Result, runErr error) (verdict string, e
 		return "violation", fmt.Errorf("CreateConnection failed against a conformant server: %s (server side: %s)", res.ConnectErr, serverSide)
 	}
 	if res.ConnectHung {
+		for _, n := range res.Notes {
+			if strings.HasPrefix(n, "STUCK-IN-SPLITPQ") {
+				return "violation", fmt.Errorf("key exchange does not complete: the client is still factorising pq = %d * %d (%s; the factorisation usually takes at most a few seconds)", sc.HS.P, sc.HS.Q, n)
+			}
+		}
 		if serverSide != "" {
 			return "violation", fmt.Errorf("the conformant server cannot continue the exchange: %s", serverSide)
 		}
@@ -118,6 +123,9 @@ func classes(sc *scen.Scenario, res *scen.Result, intended scen.Corner) []string
 	default:
 		cls = append(cls, "pq:large")
 	}
+	if sc.HS.P > 3037000499 && sc.HS.Q > 3037000499 {
+		cls = append(cls, "pq:above-2^63")
+	}
 	if sc.HS.PQPad8 {
 		cls = append(cls, "pq:padded-to-8")
 	}
@@ -130,7 +138,7 @@ func classes(sc *scen.Scenario, res *scen.Result, intended scen.Corner) []string
 }
 
 func evaluate(sc *scen.Scenario, intended scen.Corner) error {
-	res, runErr := scen.RunChild(sc, 120*time.Second)
+	res, runErr := scen.RunChild(sc, 260*time.Second)
 	verdict, err := judge(sc, res, runErr)
 	b, _ := json.Marshal(sc)
 	run.Case(verdict != "inconclusive", evid.Hash(b), append(classes(sc, res, intended), "verdict:"+verdict)...)
@@ -201,7 +209,28 @@ func TestC06(t *testing.T) {
 				}
 			}
 		}
-		run.Exhaustive("8 fields x leading-zero widths forced by search (this shard's share)", n)
+		// boundary products of two primes below 2^32
+		for _, pq := range [][2]uint64{{2, 3}, {2, 4294967291}, {251, 257}, {65521, 65537}, {3037000493, 3037000507}, {3100000027, 3100000039}, {4294967279, 4294967291}} {
+			idx++
+			if idx%nsh != run.Shard {
+				continue
+			}
+			sc, err := scen.BuildHandshake(&detSource{seed: run.Seed*977 + uint64(idx)}, keys, scen.Corner{}, false)
+			if err != nil {
+				t.Fatalf("INFRA: %v", err)
+			}
+			sc.HS.P, sc.HS.Q = pq[0], pq[1]
+			sc.PatienceMs = 12000
+			n++
+			if err := evaluate(sc, scen.Corner{}); err != nil {
+				if strings.HasPrefix(err.Error(), "INFRA:") {
+					t.Fatalf("%v", err)
+				}
+				p := run.ViolationNamed(fmt.Sprintf("pq-%d-%d", pq[0], pq[1]), sc, err.Error())
+				t.Errorf("violation (replay %s): %v", p, err)
+			}
+		}
+		run.Exhaustive("8 fields x leading-zero widths forced by search, 7 boundary pq products (this shard's share)", n)
 	})
 	if t.Failed() {
 		return
